@@ -159,12 +159,20 @@ Definition segP (pc : nat) (code : list insn) (ns ns' : nat) (f : sst -> list ss
   forall v K, ns' <= length (v_sl v) -> st_ok cs (sof v) ->
   Gen pc (pc + length code) K (RunV pc v K) (map (R v ns ns') (f (sof v))).
 
-(* a counted repeat has lo <= hi (the parser rejects {3,2}) *)
+Definition lb_alt_const (c : expr) (la : lookkind) : Prop :=
+  match la, c with
+  | (LookBehind | LookBehindNeg), Alt _ => const_size c = true
+  | _, _ => True
+  end.
+
+(* a counted repeat has lo <= hi (the parser rejects {3,2}); stage 1 leaves out look-behinds whose
+   body is an alternation of different lengths (compiled as an alternation of look-behinds) *)
 Fixpoint rok (e : expr) : Prop :=
   match e with
   | Repeat c lo hi _ => (lo <= hi)%N /\ rok c
   | Concat es | Alt es => (fix go (l : list expr) : Prop := match l with [] => True | x :: r => rok x /\ go r end) es
-  | Group c | LookAround c _ | AtomicGroup c => rok c
+  | LookAround c la => rok c /\ lb_alt_const c la
+  | Group c | AtomicGroup c => rok c
   | Conditional c y n => rok c /\ rok y /\ rok n
   | _ => True
   end.
@@ -1461,6 +1469,248 @@ Proof.
     destruct (sem cx c fuel g (ix0, caps0)); reflexivity.
   - rewrite sem_lbn, lb_found_const by auto. destruct (goback cx ix (min_size c) ix); auto.
     destruct (sem cx c fuel g (ix0, caps0)); reflexivity.
+Qed.
+
+(* ---------- look-around: machine side ---------- *)
+
+Definition la_inner (la : lookkind) (x : expr) (gx pc ns : nat) : cerr + cres :=
+  match la with
+  | LookBehind | LookBehindNeg =>
+      if const_size x then
+        bindc (visit bs x gx false (pc + 1) ns) (fun '(code, ns1) => inr (IGoBack (min_size x) :: code, ns1))
+      else inl CLookBehindNotConst
+  | _ => visit bs x gx false pc ns
+  end.
+Definition la_pos (la : lookkind) (x : expr) (gx pc ns : nat) : cerr + cres :=
+  let h := hard bs gx x in
+  bindc (la_inner la x gx (pc + 1 + (if h then 1 else 0)) (ns + 1)) (fun '(code, ns1) =>
+  inr (ISave ns :: (if h then [IBeginAtomic] else []) ++ code ++ (if h then [IEndAtomic] else []) ++ [IRestore ns], ns1)).
+Definition la_neg (la : lookkind) (x : expr) (gx pc ns : nat) : cerr + cres :=
+  bindc (la_inner la x gx (pc + 1) ns) (fun '(code, ns1) =>
+  inr (ISplit (pc + 1) (pc + 1 + length code + 1) :: code ++ [IFailNegativeLookAround], ns1)).
+
+Lemma visit_la c la g hc pc ns : lb_alt_const c la ->
+  visit bs (LookAround c la) g hc pc ns =
+  if negb hc && negb (hard bs g (LookAround c la)) then inr (delegate1 (LookAround c la) g, ns) else
+  match la with
+  | LookAhead | LookBehind => la_pos la c g pc ns
+  | _ => la_neg la c g pc ns
+  end.
+Proof.
+  intros Hc. cbn [visit]. destruct (negb hc && negb (hard bs g (LookAround c la))); auto.
+  destruct la; try reflexivity; destruct c; try reflexivity; cbn [lb_alt_const] in Hc;
+    unfold la_pos, la_neg, la_inner; rewrite !Hc; reflexivity.
+Qed.
+
+Definition setix (v : vst) (j : nat) : vst := {| v_ix := j; v_sl := v_sl v; v_aux := v_aux v |}.
+
+(* the body of a look-around, after the GoBack of a look-behind *)
+Lemma seg_la_inner la x gx pc ns code ns1 : seg_stmt x ->
+  la_inner la x gx pc ns = inr (code, ns1) -> nodeleg code -> At pc code ->
+  oke gx x -> NC <= ns -> 2 * (gx + ngroups x) <= NC ->
+  ns <= ns1 /\
+  forall v K, ns1 <= length (v_sl v) -> st_ok cs (sof v) ->
+  Gen pc (pc + length code) K (RunV pc v K) (map (R v ns ns1) (la_f la x gx (sof v))).
+Proof.
+  intros IH Hi Hnd HAt Hok Hns Hng.
+  assert (Hahead : visit bs x gx false pc ns = inr (code, ns1) -> ns <= ns1 /\
+            forall v K, ns1 <= length (v_sl v) -> st_ok cs (sof v) ->
+            Gen pc (pc + length code) K (RunV pc v K) (map (R v ns ns1) (sem cx x fuel gx (sof v)))).
+  { intros Hv. exact (IH gx false pc ns code ns1 Hv Hnd HAt Hok Hns Hng). }
+  assert (Hbehind : (if const_size x then
+             bindc (visit bs x gx false (pc + 1) ns) (fun '(code, ns1) => inr (IGoBack (min_size x) :: code, ns1))
+           else inl CLookBehindNotConst) = inr (code, ns1) -> ns <= ns1 /\
+            forall v K, ns1 <= length (v_sl v) -> st_ok cs (sof v) ->
+            Gen pc (pc + length code) K (RunV pc v K)
+              (map (R v ns ns1) (match goback cx (fst (sof v)) (min_size x) (fst (sof v)) with
+                                 | GBOk j => sem cx x fuel gx (j, snd (sof v)) | _ => [] end))).
+  { destruct (const_size x); [|discriminate]. intros Hv.
+    apply bindc_inr in Hv as ([cc n1] & Hc & Hr). inversion Hr; subst code ns1. clear Hr.
+    apply At_cons in HAt as [Ha HAc]. apply nodeleg_cons in Hnd as [_ Hndc].
+    replace (pc + 1) with (S pc) in Hc by lia.
+    destruct (IH gx false (S pc) ns cc n1 Hc Hndc HAc Hok Hns Hng) as [M G]. split; auto.
+    intros v K Hsl Hokv. cbn [sof fst snd]. apply Gen_step. unfold RunV at 1.
+    rewrite (step_goback cx P pc _ _ _ K _ Ha).
+    destruct Hokv as [Bix Hcaps]. cbn [sof fst snd] in Bix, Hcaps.
+    pose proof (goback_sound cs W cx Htext (v_ix v) (min_size x) (v_ix v) Bix (le_n _)) as Gs.
+    destruct (goback cx (v_ix v) (min_size x) (v_ix v)) as [j| |].
+    - destruct Gs as (n0 & _ & D0). destruct (dist_bnd cs W _ _ _ D0) as (Bj & _ & _).
+      change (Run (S pc) j (v_sl v) (v_aux v) K) with (RunV (S pc) (setix v j) K).
+      apply Gen_weaken with (p := S pc); [lia|].
+      replace (pc + length (IGoBack (min_size x) :: cc)) with (S pc + length cc) by (cbn [length]; lia).
+      apply (G (setix v j) K); auto. split; auto.
+    - apply Gen_nil. apply steps_refl.
+    - destruct Gs. }
+  destruct la; cbn [la_inner la_f] in *; auto.
+Qed.
+
+Lemma visit_easy x g pc ns : hard bs g x = false -> visit bs x g false pc ns = inr (delegate1 x g, ns).
+Proof. intros H. destruct x; cbn [visit]; rewrite H; reflexivity. Qed.
+
+Lemma la_f_short la x gx code pc ns ns1 : hard bs gx x = false ->
+  la_inner la x gx pc ns = inr (code, ns1) -> nodeleg code ->
+  forall st, st_ok cs st -> length (la_f la x gx st) <= 1.
+Proof.
+  intros Hh Hi Hnd st Hst.
+  assert (Hl : is_literal x = true).
+  { destruct la; cbn [la_inner] in Hi; try (destruct (const_size x); [|discriminate]);
+      rewrite (visit_easy x gx _ ns Hh) in Hi; cbn [bindc] in Hi; inversion Hi; subst code;
+      try (apply nodeleg_cons in Hnd as [_ Hnd]);
+      unfold delegate1 in Hnd; destruct (is_literal x); auto; cbn in Hnd; discriminate. }
+  assert (Hs : forall s, fst s <= length t -> length (sem cx x fuel gx s) <= 1).
+  { intros s Hsl. rewrite sem_is_literal by auto. unfold lit_res. destruct (lit_at _ _ _); cbn; lia. }
+  assert (Hb : match goback cx (fst st) (min_size x) (fst st) with GBOk j => j <= length t | _ => True end).
+  { pose proof (goback_sound cs W cx Htext (fst st) (min_size x) (fst st) (proj1 Hst) (le_n _)) as Gs.
+    destruct (goback cx (fst st) (min_size x) (fst st)); auto. destruct Gs as (n0 & _ & D0).
+    destruct (dist_bnd cs W _ _ _ D0) as (Bj & _ & _). apply bnd_le in Bj. exact Bj. }
+  pose proof (bnd_le _ _ (proj1 Hst)) as Hle.
+  destruct la; cbn [la_f]; auto;
+    destruct (goback cx (fst st) (min_size x) (fst st)) as [j| |]; cbn [length]; try lia; apply Hs; auto.
+Qed.
+
+Lemma pos_wrap pc ns ns1 (h : bool) codeI (f : sst -> list sst) :
+  At pc (ISave ns :: (if h then [IBeginAtomic] else []) ++ codeI ++ (if h then [IEndAtomic] else []) ++ [IRestore ns]) ->
+  NC <= ns -> ns + 1 <= ns1 ->
+  (forall v K, ns1 <= length (v_sl v) -> st_ok cs (sof v) ->
+     Gen (pc + 1 + (if h then 1 else 0)) (pc + 1 + (if h then 1 else 0) + length codeI) K
+         (RunV (pc + 1 + (if h then 1 else 0)) v K) (map (R v (ns + 1) ns1) (f (sof v)))) ->
+  (h = false -> forall st, st_ok cs st -> length (f st) <= 1) ->
+  segP pc (ISave ns :: (if h then [IBeginAtomic] else []) ++ codeI ++ (if h then [IEndAtomic] else []) ++ [IRestore ns])
+       ns ns1 (fun st => map (fun s' => (fst st, snd s')) (firstn 1 (f st))).
+Proof.
+  intros HAt Hns Hn1 Hin Hshort. split; [lia|]. intros v K Hsl Hok.
+  apply At_cons in HAt as [Ha1 HAt].
+  set (v1 := setsl v (upd (v_sl v) ns (V (v_ix v)))).
+  assert (Hs1 : sof v1 = sof v) by (apply sof_upd; lia).
+  assert (Hl1 : length (v_sl v1) = length (v_sl v)) by (unfold v1; cbn [setsl v_sl]; apply upd_length).
+  assert (Hslot : nth_error (v_sl v1) ns = Some (V (v_ix v))) by (unfold v1; cbn [setsl v_sl]; apply nth_upd_same; lia).
+  assert (HR : forall (x : sst) v', caps (v_sl v') = snd x -> frame (ns + 1) ns1 (v_sl v1) (v_sl v') ->
+            nth_error (v_sl v') ns = Some (V (v_ix v)) /\
+            R v ns ns1 (fst (sof v), snd x) {| v_ix := v_ix v; v_sl := v_sl v'; v_aux := v_aux v |}).
+  { intros x v' Hc [L F]. split; [rewrite F by lia; exact Hslot|].
+    unfold R; cbn [v_ix v_sl v_aux fst snd sof].
+    split; [auto|]. split; [auto|]. split; [auto|]. split; [congruence|].
+    intros j Hj Ho. rewrite F by lia. unfold v1; cbn [setsl v_sl]. apply nth_upd_other. lia. }
+  apply Gen_step. unfold RunV at 1. rewrite (step_save cx P pc _ _ _ K ns Ha1) by lia.
+  change (Run (S pc) (v_ix v) (upd (v_sl v) ns (V (v_ix v))) (v_aux v) K) with (RunV (S pc) v1 K).
+  destruct h.
+  - cbn [app] in HAt. apply At_cons in HAt as [Ha2 HAt]. apply At_app in HAt as [_ HAt].
+    apply At_cons in HAt as [Ha3 HAt]. apply At_cons in HAt as [Ha4 _].
+    apply Gen_step. unfold RunV at 1. rewrite (step_begin cx P (S pc) _ _ _ K Ha2).
+    set (v2 := {| v_ix := v_ix v1; v_sl := v_sl v1; v_aux := v_aux v1 ++ [V (length K)] |}).
+    change (Run (S (S pc)) (v_ix v1) (v_sl v1) (v_aux v1 ++ [V (length K)]) K) with (RunV (S (S pc)) v2 K).
+    specialize (Hin v2 K ltac:(unfold v2; cbn [v_sl]; lia) ltac:(change (sof v2) with (sof v1); now rewrite Hs1)).
+    change (sof v2) with (sof v1) in Hin. rewrite Hs1 in Hin.
+    replace (pc + 1 + 1) with (S (S pc)) in Hin by lia.
+    destruct (f (sof v)) as [|x rest]; cbn [firstn map] in *.
+    + inversion Hin; subst. apply Gen_nil. auto.
+    + inversion Hin as [|c0 v' F Q Ps Hs HF HQ Hrest]; subst.
+      destruct HQ as (Hi & Hcp & Hax & Hfr). destruct (HR x v' Hcp Hfr) as [Hsl' HRx].
+      destruct v' as [ix' sl' aux']. cbn [v_ix v_sl v_aux] in *. subst aux'.
+      eapply Gen_one' with (v' := {| v_ix := v_ix v; v_sl := sl'; v_aux := v_aux v |}).
+      * eapply steps_trans; [exact Hs|]. unfold RunV; cbn [v_ix v_sl v_aux v2 v1 setsl].
+        apply steps_cons. rewrite (step_end cx P _ ix' sl' (v_aux v) (F ++ K) (length K) Ha3) by (rewrite app_length; lia).
+        rewrite skipn_app_len. apply steps_step.
+        rewrite (step_restore cx P _ ix' sl' (v_aux v) K ns (v_ix v) Ha4 Hsl'). f_equal.
+        cbn [length]. rewrite !app_length. cbn [length]. lia.
+      * exact HRx.
+  - cbn [app] in HAt. apply At_app in HAt as [_ HAt]. apply At_cons in HAt as [Ha4 _].
+    replace (pc + 1 + 0) with (S pc) in * by lia.
+    specialize (Hin v1 K ltac:(lia) ltac:(now rewrite Hs1)). rewrite Hs1 in Hin.
+    specialize (Hshort eq_refl (sof v) Hok).
+    destruct (f (sof v)) as [|x [|y rest]]; cbn [firstn map length] in *; [| |lia].
+    + inversion Hin; subst. apply Gen_nil. auto.
+    + inversion Hin as [|c0 v' F Q Ps Hs HF HQ Hrest]; subst. inversion Hrest as [c1 Hst|]; subst.
+      destruct HQ as (Hi & Hcp & Hax & Hfr). destruct (HR x v' Hcp Hfr) as [Hsl' HRx].
+      change (v_aux v1) with (v_aux v) in Hax.
+      eapply Gen_cons with (F := F) (v := {| v_ix := v_ix v; v_sl := v_sl v'; v_aux := v_aux v |}).
+      * eapply steps_trans; [exact Hs|]. apply steps_step. unfold RunV; cbn [v_ix v_sl v_aux].
+        rewrite (step_restore cx P _ _ _ _ (F ++ K) ns (v_ix v) Ha4 Hsl'). rewrite Hax. f_equal.
+        cbn [length]. rewrite !app_length. cbn [length]. lia.
+      * eapply inblk_weaken; [| |exact HF]; [lia|]. cbn [length]. rewrite !app_length. cbn [length]. lia.
+      * exact HRx.
+      * apply Gen_nil. exact Hst.
+Qed.
+
+Lemma neg_wrap pc ns ns1 codeI (f : sst -> list sst) :
+  At pc (ISplit (pc + 1) (pc + 1 + length codeI + 1) :: codeI ++ [IFailNegativeLookAround]) ->
+  ns <= ns1 ->
+  (forall v K, ns1 <= length (v_sl v) -> st_ok cs (sof v) ->
+     Gen (pc + 1) (pc + 1 + length codeI) K (RunV (pc + 1) v K) (map (R v ns ns1) (f (sof v)))) ->
+  segP pc (ISplit (pc + 1) (pc + 1 + length codeI + 1) :: codeI ++ [IFailNegativeLookAround])
+       ns ns1 (fun st => match f st with [] => [st] | _ => [] end).
+Proof.
+  intros HAt Hn Hin. split; auto. intros v K Hsl Hok.
+  apply At_cons in HAt as [Ha1 HAt]. apply At_app in HAt as [_ HAt]. apply At_cons in HAt as [Ha2 _].
+  apply Gen_step. rewrite (step_splitV pc v K _ _ Ha1).
+  specialize (Hin v (alt_of (pc + 1 + length codeI + 1) v :: K) Hsl Hok).
+  assert (Eq : pc + length (ISplit (pc + 1) (pc + 1 + length codeI + 1) :: codeI ++ [IFailNegativeLookAround])
+               = pc + 1 + length codeI + 1) by (cbn [length]; rewrite app_length; cbn [length]; lia).
+  rewrite Eq.
+  destruct (f (sof v)) as [|x rest]; cbn [map] in *.
+  - inversion Hin as [c0 Hs|]; subst. eapply Gen_one' with (v' := v).
+    + eapply steps_trans; [exact Hs|]. apply steps_step. apply fail_alt.
+    + unfold R, sof; cbn [fst snd]. repeat split; auto.
+  - inversion Hin as [|c0 v' F Q Ps Hs HF HQ Hrest]; subst. apply Gen_nil.
+    eapply steps_trans; [exact Hs|]. apply steps_step. unfold RunV.
+    replace (S pc + length codeI) with (pc + 1 + length codeI) in Ha2 by lia.
+    apply (step_fnla cx P (pc + 1 + length codeI) _ _ _ F (alt_of (pc + 1 + length codeI + 1) v) K Ha2).
+    + eapply Forall_impl; [|exact HF]. intros a Ha. cbn beta in Ha. lia.
+    + cbn [alt_of a_pc]. lia.
+Qed.
+
+Lemma seg_la_pos la c g pc ns code ns' : seg_stmt c ->
+  la_pos la c g pc ns = inr (code, ns') -> nodeleg code -> At pc code ->
+  oke g c -> NC <= ns -> 2 * (g + ngroups c) <= NC ->
+  segP pc code ns ns' (fun st => map (fun s' => (fst st, snd s')) (firstn 1 (la_f la c g st))).
+Proof.
+  intros IH Hv Hnd HAt Hok Hns Hng. unfold la_pos in Hv. cbv zeta in Hv.
+  apply bindc_inr in Hv as ([cc n1] & Hi & Hr). inversion Hr; subst code ns'. clear Hr.
+  assert (Hsub : nodeleg cc /\ At (pc + 1 + (if hard bs g c then 1 else 0)) cc).
+  { pose proof HAt as HAt'. apply At_cons in HAt' as [_ HAt']. apply nodeleg_cons in Hnd as [_ Hnd].
+    destruct (hard bs g c); cbn [app] in *.
+    - apply At_cons in HAt' as [_ HAt']. apply At_app in HAt' as [HA _]. apply nodeleg_cons in Hnd as [_ Hnd].
+      apply nodeleg_app in Hnd as [Hn _]. split; auto. replace (pc + 1 + 1) with (S (S pc)) by lia. exact HA.
+    - apply At_app in HAt' as [HA _]. apply nodeleg_app in Hnd as [Hn _]. split; auto.
+      replace (pc + 1 + 0) with (S pc) by lia. exact HA. }
+  destruct Hsub as [Hndc HAc].
+  destruct (seg_la_inner la c g _ (ns + 1) cc n1 IH Hi Hndc HAc Hok ltac:(lia) Hng) as [M G].
+  apply pos_wrap; auto; try lia. intros Hh st Hst. eapply la_f_short; eauto.
+Qed.
+
+Lemma seg_la_neg la c g pc ns code ns' : seg_stmt c ->
+  la_neg la c g pc ns = inr (code, ns') -> nodeleg code -> At pc code ->
+  oke g c -> NC <= ns -> 2 * (g + ngroups c) <= NC ->
+  segP pc code ns ns' (fun st => match la_f la c g st with [] => [st] | _ => [] end).
+Proof.
+  intros IH Hv Hnd HAt Hok Hns Hng. unfold la_neg in Hv.
+  apply bindc_inr in Hv as ([cc n1] & Hi & Hr). inversion Hr; subst code ns'. clear Hr.
+  pose proof HAt as HAt'. apply At_cons in HAt' as [_ HAt']. apply At_app in HAt' as [HAc _].
+  apply nodeleg_cons in Hnd as [_ Hnd]. apply nodeleg_app in Hnd as [Hndc _].
+  replace (S pc) with (pc + 1) in HAc by lia.
+  destruct (seg_la_inner la c g _ ns cc n1 IH Hi Hndc HAc Hok Hns Hng) as [M G].
+  apply neg_wrap; auto.
+Qed.
+
+Lemma seg_lookaround c la : seg_stmt c -> seg_stmt (LookAround c la).
+Proof.
+  intros IH g hc pc ns code ns' Hv Hnd HAt (Hw & Hz & Hac & Hrk) Hns Hng.
+  cbn [wfe] in Hw. cbn [acheck] in Hac. cbn [rok] in Hrk. destruct Hrk as [Hrk Hlb]. cbn [ngroups] in Hng.
+  rewrite (visit_la c la g hc pc ns Hlb) in Hv. change (hard bs g (LookAround c la)) with true in Hv.
+  rewrite andb_false_r in Hv.
+  assert (Hzc : zok c).
+  { destruct c; try exact Hz; try exact I. destruct k; [exact I|]. exfalso.
+    destruct la; unfold la_pos, la_neg, la_inner in Hv; cbn in Hv;
+      repeat match type of Hv with context [if ?b then _ else _] => destruct b end;
+      cbn in Hv; try discriminate; inversion Hv; subst code; cbn in Hnd; discriminate. }
+  assert (Hoc : oke g c) by (repeat split; auto).
+  assert (Hcs : match la with LookBehind | LookBehindNeg => const_size c = true | _ => True end).
+  { destruct la; auto; unfold la_pos, la_neg, la_inner in Hv; destruct (const_size c); auto; discriminate. }
+  destruct la.
+  - eapply segP_ext; [|eapply seg_la_pos; eauto]. intros st Hst. cbv beta. now rewrite sem_la_eq.
+  - eapply segP_ext; [|eapply seg_la_neg; eauto]. intros st Hst. cbv beta. now rewrite sem_la_eq.
+  - eapply segP_ext; [|eapply seg_la_pos; eauto]. intros st Hst. cbv beta. now rewrite sem_la_eq.
+  - eapply segP_ext; [|eapply seg_la_neg; eauto]. intros st Hst. cbv beta. now rewrite sem_la_eq.
 Qed.
 
 End CC.
